@@ -1,9 +1,16 @@
 """C20 — Synchronizer output is exactly the accepted traces, in order, with own metadata.
 
-C-tie: the real scared.Synchronizer(ths, output, f).run() is driven with a scripted user function (accept / return
-None / raise, by call number); the ETS file it wrote is read back with estraces and compared, inside Coq, with the
-spec list `accepted` and with the store of the impl-model (Model/Sync.v: sync_check).
+C-tie: a real scared.Synchronizer object is driven through a HISTORY of public calls with a scripted user function
+(accept / return None / raise, by call number): construction over an output file that does not exist or was left by a
+previous Synchronizer run (overwrite not given / False / True, str / Path, extra kwargs for the function), any number of
+check(nb_traces, catch_exceptions) (numpy's global RNG seeded and restored) and str() / report() calls, run(), str(),
+run() again.  What every call did, the counters after every call, the traces and kwargs the function received, and the
+ETS file read back are compared, inside Coq, with the spec list `accepted_from` and with the impl-model's state machine
+(Model/Sync.v: sync_check).
 """
+import contextlib
+import io
+import re
 import itertools
 import os
 import warnings
@@ -31,6 +38,7 @@ ASSUMPTIONS = [
     'the user function raises subclasses of Exception (KeyboardInterrupt and other BaseException are deliberately propagated by the code)',
     'all accepted traces of one run return data of the same length and dtype (the ETS samples dataset is rectangular)',
     'warnings are not configured as errors (a UserWarning turned into an exception would escape from the except handler)',
+    'a pre-existing output file is a well-formed ETS file with the metadata keys of the input set (it was written by a previous Synchronizer run)',
 ]
 
 HDR = 'From ScaredV Require Import Model.Sync.'
@@ -64,6 +72,10 @@ def _raise(kind):
     raise ValueError(kind)
 
 
+
+PAD = 6      # script entries beyond the expected number of calls (a call beyond the script raises RuntimeError)
+
+
 def _rows(case):
     """Effective input rows (meta, samples) after the optional sub-set selection."""
     sel = case.get('select')
@@ -71,11 +83,25 @@ def _rows(case):
     return [(case['plaintext'][i] + case['key'][i], case['samples'][i]) for i in idx]
 
 
+def _pattern(case):
+    """The script by call number: the calls consumed by each check() of the history, then the run."""
+    return ''.join(case.get('segments') or []) + case['pattern'] + 'A' * PAD
+
+
+def _at(lst, i, default):
+    return lst[i] if i < len(lst) else default
+
+
+def _kw_off2(case):
+    kw = case.get('kwargs')
+    return int(kw['off2']) if kw else 0
+
+
 def _returned(case, i, samples_row):
     """Data (scaled by 2, as exact ints) the scripted function returns at call i on a trace with these samples."""
     k = case['out_len']
     L = len(samples_row)
-    return [2 * samples_row[j % L] + case['offs2'][i] for j in range(k)]
+    return [2 * samples_row[j % L] + _at(case['offs2'], i, 0) + _kw_off2(case) for j in range(k)]
 
 
 def _x2(a):
@@ -101,8 +127,25 @@ def _read_rows(ths):
     return rows
 
 
-def make_case(rng, n, pattern, L=None, out_len=None, dtype=None, out_dtype=None, out_kind=None, select=None, full=None):
-    """pattern is over the EFFECTIVE input (after select); full = number of traces of the underlying set."""
+def _consumed(script, catch, n):
+    """Part of a check() script that is really called: nothing on an empty set, up to the first rejection when the
+    exceptions are not caught."""
+    if n == 0:
+        return ''
+    if catch:
+        return script
+    for j, ch in enumerate(script):
+        if ch != 'A':
+            return script[:j + 1]
+    return script
+
+
+def make_case(rng, n, pattern, L=None, out_len=None, dtype=None, out_dtype=None, out_kind=None, select=None, full=None,
+              history=None, old=None, overwrite=None, kwargs=None):
+    """pattern is over the EFFECTIVE input (after select); full = number of traces of the underlying set.
+    history: list of ('check', script, catch) | ('str',) | ('report',); script = what the function does at the calls of
+    that check() (its length is nb_traces).  old: None or (n_old, L_old): the output file exists, written by a previous
+    Synchronizer run that accepted n_old traces of L_old samples."""
     L = L or rng.randint(1, 5)
     dtype = dtype or rng.choice(['uint8', 'int16', 'float32'])
     out_dtype = out_dtype or rng.choice(['float32', 'float64', 'int16', 'int32'])
@@ -113,11 +156,65 @@ def make_case(rng, n, pattern, L=None, out_len=None, dtype=None, out_dtype=None,
     plaintext = [[i % 256, rng.randint(0, 255), rng.randint(0, 255)] for i in range(full)]
     key = [[(i // 256) % 256, rng.randint(0, 255)] for i in range(full)]
     half = out_dtype.startswith('float')
-    offs2 = [(2 * rng.randint(-3, 3) + (1 if half and rng.random() < 0.7 else 0)) for _ in range(n)]
-    return {'samples': samples, 'plaintext': plaintext, 'key': key, 'dtype': dtype, 'select': select,
-            'pattern': ''.join(pattern), 'exc': [rng.choice(EXC_KINDS) for _ in range(n)],
+    events, segments = [], []
+    for ev in history or []:
+        if ev[0] == 'check':
+            events.append(['check', len(ev[1]), bool(ev[2])])
+            segments.append(_consumed(''.join(ev[1]), ev[2], n))
+        else:
+            events.append([ev[0]])
+            segments.append('')
+    total = sum(len(s) for s in segments) + n + PAD
+    offs2 = [(2 * rng.randint(-3, 3) + (1 if half and rng.random() < 0.7 else 0)) for _ in range(total)]
+    case = {'samples': samples, 'plaintext': plaintext, 'key': key, 'dtype': dtype, 'select': select,
+            'pattern': ''.join(pattern), 'exc': [rng.choice(EXC_KINDS) for _ in range(total)],
             'out_len': out_len if out_len is not None else rng.choice([L, max(1, L - 1), L + 1, 1, 2 * L + 1]),
-            'out_dtype': out_dtype, 'offs2': offs2, 'out_kind': out_kind or rng.choice(['str', 'path'])}
+            'out_dtype': out_dtype, 'offs2': offs2, 'out_kind': out_kind or rng.choice(['str', 'path']),
+            'history': events, 'segments': segments, 'np_seed': rng.randrange(2 ** 31), 'overwrite': overwrite,
+            'old': None, 'kwargs': kwargs}
+    if old is not None:
+        n_old, L_old = old
+        case['old'] = {'samples': [[rng.randint(-50, 50) for _ in range(L_old)] for _ in range(n_old)],
+                       'plaintext': [[200 + i % 50, rng.randint(0, 255), rng.randint(0, 255)] for i in range(n_old)],
+                       'key': [[99, rng.randint(0, 255)] for i in range(n_old)]}
+    return case
+
+
+_RE_P = re.compile(r'Processed traces\.*: *(\d+)')
+_RE_S = re.compile(r'Synchronized traces\.*: *(\d+)')
+
+
+def _parse_report(text):
+    a, b = _RE_P.search(text), _RE_S.search(text)
+    if not a or not b:
+        return [4000, 4000]
+    return [min(int(a.group(1)), 4000), min(int(b.group(1)), 4000)]
+
+
+def _report(sync, how):
+    """str(sync) or sync.report(): the two printed counters, None when ZeroDivisionError, else a marker."""
+    buf = io.StringIO()
+    try:
+        with contextlib.redirect_stdout(buf):
+            if how == 'report':
+                sync.report()
+                text = buf.getvalue()
+            else:
+                text = str(sync)
+    except ZeroDivisionError:
+        return None
+    except Exception:
+        return [4001, 4001]
+    return _parse_report(text)
+
+
+def _ths(samples, plaintext, key, dtype):
+    import estraces
+    n = len(samples)
+    L = len(samples[0]) if n else 3
+    return estraces.read_ths_from_ram(samples=np.array(samples, dtype=dtype).reshape(n, L),
+                                      plaintext=np.array(plaintext, dtype='uint8').reshape(n, 3),
+                                      key=np.array(key, dtype='uint8').reshape(n, 2))
 
 
 class SyncKind(Kind):
@@ -130,8 +227,8 @@ class SyncKind(Kind):
     rule = ('scared.Synchronizer(read_ths_from_ram set or sub-set, ETS file name as str/Path, scripted function).run(): ALL 3^n '
             'accept/None/raise patterns for n <= 5 (quick) / 6 (thorough), failure runs >= 8 and >= 16 (warning path) at the start, '
             'middle and end, first/last rejected, all rejected, all accepted, empty input set, returned data shorter/equal/longer '
-            'than the trace, several exception classes, sub-sets with repeated traces; non-trivial = at least one accepted and one '
-            'rejected trace')
+            'than the trace, several exception classes, sub-sets with repeated traces, extra kwargs; non-trivial = at least one '
+            'accepted and one rejected trace')
 
     def gen(self, rng, tier):
         nmax = 5 if tier == 'quick' else 6
@@ -167,7 +264,7 @@ class SyncKind(Kind):
                 pat = [rng.choice('AAANR') for _ in range(n)]
                 yield make_case(rng, n, pat, L=L, out_len=k, dtype=dtype)
         # --- random structure
-        nrand = 120 if tier == 'quick' else 1500
+        nrand = 90 if tier == 'quick' else 1500
         for _ in range(nrand):
             full = rng.randint(1, 24)
             select = None
@@ -183,36 +280,35 @@ class SyncKind(Kind):
                 n = len(select)
             w = rng.choice(['AAAAANR', 'ANR', 'ANNRRR', 'AR', 'AN'])
             pat = [rng.choice(w) for _ in range(n)]
-            yield make_case(rng, n, pat, select=select, full=full)
+            kwargs = {'off2': 2 * rng.randint(-4, 4), 'tag': rng.choice(['a', 'sync', ''])} if rng.random() < 0.3 else None
+            yield make_case(rng, n, pat, select=select, full=full, kwargs=kwargs)
 
+    # ------------------------------------------------------------------------------------------------ driver
     def run(self, case):
         import estraces
         import scared
-        n_full = len(case['samples'])
-        L = len(case['samples'][0]) if n_full else 3
-        samples = np.array(case['samples'], dtype=case['dtype']).reshape(n_full, L)
-        plaintext = np.array(case['plaintext'], dtype='uint8').reshape(n_full, 3)
-        key = np.array(case['key'], dtype='uint8').reshape(n_full, 2)
-        ths = estraces.read_ths_from_ram(samples=samples, plaintext=plaintext, key=key)
+        from estraces.formats.ets_writer import ETSWriterError
+        ths = _ths(case['samples'], case['plaintext'], case['key'], case['dtype'])
         if case['select'] is not None:
             ths = ths[case['select']]
-        pattern = case['pattern']
+        pattern = _pattern(case)
+        expected_kw = dict(case['kwargs']) if case.get('kwargs') else {}
         seen = []
 
-        def function(trace_object):
+        def function(trace_object, **kw):
             i = len(seen)
             arr = np.asarray(trace_object.samples.array)
             seen.append({'meta': [int(v) for v in trace_object.plaintext] + [int(v) for v in trace_object.key],
-                         'samples': [int(v) for v in arr]})
+                         'samples': [int(v) for v in arr], 'kw_ok': kw == expected_kw})
             if i >= len(pattern):
-                raise RuntimeError('function called more often than there are traces')
+                raise RuntimeError('function called more often than scripted')
             p = pattern[i]
             if p == 'N':
                 return None
             if p == 'R':
-                return _raise(case['exc'][i])
+                return _raise(_at(case['exc'], i, 'value'))
             k = case['out_len']
-            return (np.resize(arr.astype('float64'), k) + case['offs2'][i] / 2).astype(case['out_dtype'])
+            return (np.resize(arr.astype('float64'), k) + (_at(case['offs2'], i, 0) + int(kw.get('off2', 0))) / 2).astype(case['out_dtype'])
 
         core.WORK.mkdir(exist_ok=True)
         fname = str(core.WORK / f'c20_{os.getpid()}_{next(_counter)}.ets')
@@ -221,20 +317,70 @@ class SyncKind(Kind):
         output = fname if case['out_kind'] == 'str' else Path(fname)
         obs = {}
         reader = None
-        reread = None
+        sync = None
+        rng_state = np.random.get_state()
         try:
             with warnings.catch_warnings(record=True) as wlist:
                 warnings.simplefilter('always')
-                sync = scared.Synchronizer(ths, output, function)
+                # ---- an output file left by a previous Synchronizer run (another campaign)
+                if case.get('old') is not None:
+                    o = case['old']
+                    prev = scared.Synchronizer(_ths(o['samples'], o['plaintext'], o['key'], 'int16'), output,
+                                               lambda trace_object: trace_object.samples.array.astype('float32'))
+                    prev.run().close()
+                    prev.output.close()
+                    del prev
+                    r0 = estraces.read_ths_from_ets_file(fname)
+                    obs['old_rows'] = _read_rows(r0)
+                    r0.close()
+                else:
+                    obs['old_rows'] = None
+                np.random.seed(case.get('np_seed', 0))
+                ckw = dict(expected_kw)
+                if case.get('overwrite') is not None:
+                    ckw['overwrite'] = bool(case['overwrite'])
+                sync = scared.Synchronizer(ths, output, function, **ckw)
+                # ---- the pre-run history
+                hist = []
+                for ev in case.get('history') or []:
+                    c_before = len(seen)
+                    if ev[0] == 'check':
+                        h = {'ev': 'check'}
+                        try:
+                            with contextlib.redirect_stdout(io.StringIO()):
+                                res = sync.check(nb_traces=ev[1], catch_exceptions=ev[2])
+                            h['returned'] = [None if r is None else _x2(r) for r in res]
+                            if any(r is not None and x is None for r, x in zip(res, h['returned'])):
+                                h['returned'] = 'not-half-integers'
+                        except Exception as e:
+                            h['returned'] = None
+                            h['exc'] = type(e).__name__
+                    else:
+                        h = {'ev': 'report', 'counters': _report(sync, ev[0])}
+                    h['calls'] = [c_before, len(seen)]
+                    h['p'] = int(sync.processed_counter)
+                    h['s'] = int(sync.synchronized_counter)
+                    hist.append(h)
+                obs['history'] = hist
+                obs['calls_before_run'] = len(seen)
+                n_hist_warn = len(wlist)
+                # ---- run()
                 try:
                     reader = sync.run()
                     obs['run'] = 'returned'
                 except AttributeError as e:       # ETSWriter.get_reader: the file was never created
-                    obs['run'] = 'no_output_set'
+                    obs['run'] = 'other' if os.path.exists(fname) else 'no_output_set'
+                    obs['run_msg'] = str(e)[:120]
+                except ETSWriterError as e:
+                    obs['run'] = 'writer_error'
+                    obs['run_msg'] = str(e)[:120]
+                except scared.SynchronizerError as e:
+                    obs['run'] = 'refused'
                     obs['run_msg'] = str(e)[:120]
                 obs['processed'] = int(sync.processed_counter)
                 obs['synchronized'] = int(sync.synchronized_counter)
-                obs['warnings'] = len([w for w in wlist if issubclass(w.category, UserWarning) and 'consecutive' in str(w.message)])
+                obs['report'] = _report(sync, 'str')
+                obs['warnings'] = len([w for w in wlist[n_hist_warn:] if issubclass(w.category, UserWarning) and 'consecutive' in str(w.message)])
                 # second run() on the same object, BEFORE the file is read back (it must change nothing)
                 ncalls = len(seen)
                 try:
@@ -255,62 +401,119 @@ class SyncKind(Kind):
                 obs['rows'] = _read_rows(reader)
                 reader.close()
                 reader = None
-                if os.path.exists(fname):
-                    reread = estraces.read_ths_from_ets_file(fname)
-                    obs['rows_reread'] = _read_rows(reread)
             else:
                 obs['rows'] = None
-                obs['file_exists'] = os.path.exists(fname)
-        finally:
-            for r in (reader, reread):
-                try:
-                    if r is not None:
-                        r.close()
-                except Exception:
-                    pass
+            # the file as it is on disk afterwards
             try:
                 sync.output.close()
+            except Exception:
+                pass
+            if os.path.exists(fname):
+                rr = estraces.read_ths_from_ets_file(fname)
+                try:
+                    obs['rows_disk'] = _read_rows(rr)
+                finally:
+                    rr.close()
+            else:
+                obs['rows_disk'] = None
+        finally:
+            np.random.set_state(rng_state)
+            try:
+                if reader is not None:
+                    reader.close()
+            except Exception:
+                pass
+            try:
+                if sync is not None:
+                    sync.output.close()
             except Exception:
                 pass
             if os.path.exists(fname):
                 os.remove(fname)
         return obs
 
+    # ------------------------------------------------------------------------------------------------ Coq record
     @staticmethod
     def _zrow(meta, data):
         return '(%s, %s)' % (C.coq_list(meta, C.coq_z), C.coq_list(data, C.coq_z))
 
+    def _rows_lit(self, rows):
+        if rows is None:
+            return 'None'
+        return '(Some %s)' % C.coq_list([self._zrow(r['meta'], r['data2'] if r['data2'] is not None else []) for r in rows])
+
     def coq(self, case, obs):
         rows = _rows(case)
+        n = len(rows)
         # inputs are exported scaled by 2 like the outputs (same unit on both sides)
         inp = [self._zrow(m, [2 * v for v in s]) for m, s in rows]
+        old_lit = self._rows_lit(obs.get('old_rows'))
+        ovw = C.coq_bool(bool(case.get('overwrite')))
+        pattern = _pattern(case)
+        if 'raised' in obs:
+            return ('{| sy_input := %s; sy_pattern := []; sy_old := None; sy_overwrite := %s; sy_history := []; sy_obs_history := []; '
+                    'sy_obs_seen := []; sy_obs_run := ObsOther; sy_obs_processed := 0%%nat; sy_obs_synchronized := 0%%nat; '
+                    'sy_obs_report := None; sy_obs_warnings := 0%%nat; sy_obs_rows := None; sy_obs_second_refused := false |}'
+                    % (C.coq_list(inp), ovw))
+        seen = obs['seen']
+        c0 = obs['calls_before_run']
+        # the script as Coq outcomes: returned data is a function of the samples of the trace the call is made on
         pats = []
-        for i, p in enumerate(case['pattern']):
+        for i, p in enumerate(pattern):
             if p == 'A':
-                pats.append('(Accept %s)' % C.coq_list(_returned(case, i, rows[i][1]), C.coq_z))
+                if i < c0 and i < len(seen):
+                    src = seen[i]['samples']          # a check() call: the trace it was really given
+                elif 0 <= i - c0 < n:
+                    src = rows[i - c0][1]             # a run() call: the input trace of that position
+                else:
+                    src = [0]
+                pats.append('(Accept %s)' % C.coq_list(_returned(case, i, src), C.coq_z))
             else:
                 pats.append('ReturnNone' if p == 'N' else 'Raise')
-        if 'raised' in obs:
-            return ('{| sy_input := %s; sy_pattern := %s; sy_obs_seen := []; sy_obs_processed := 0%%nat; sy_obs_synchronized := 0%%nat; '
-                    'sy_obs_rows := None; sy_obs_second_refused := false |}' % (C.coq_list(inp), C.coq_list(pats)))
-        seen = [self._zrow(s['meta'], [2 * v for v in s['samples']]) for s in obs['seen']]
-        if obs['rows'] is None:
-            orows = 'None'
-        else:
-            orows = '(Some %s)' % C.coq_list([self._zrow(r['meta'], r['data2'] if r['data2'] is not None else []) for r in obs['rows']])
-        return ('{| sy_input := %s; sy_pattern := %s; sy_obs_seen := %s; sy_obs_processed := %s; sy_obs_synchronized := %s; '
-                'sy_obs_rows := %s; sy_obs_second_refused := %s |}' % (
-                    C.coq_list(inp), C.coq_list(pats), C.coq_list(seen), C.coq_nat(obs['processed']), C.coq_nat(obs['synchronized']),
-                    orows, C.coq_bool(obs['second'] == 'refused' and obs['second_unchanged'])))
+        # history events with the picks inferred from the traces the function received
+        evs, eobs = [], []
+        for ev, h in zip(case.get('history') or [], obs['history']):
+            if ev[0] == 'check':
+                a, b = h['calls']
+                picks = []
+                for srow in seen[a:b]:
+                    key = (srow['meta'], srow['samples'])
+                    picks.append(next((j for j, (m, s) in enumerate(rows) if (m, s) == key), n))
+                picks += [0] * max(0, ev[1] - len(picks))
+                evs.append('(EvCheck %s %s)' % (C.coq_list(picks, C.coq_nat), C.coq_bool(ev[2])))
+                if h['returned'] is None or h['returned'] == 'not-half-integers':
+                    ret = 'None' if h['returned'] is None else '(Some [Some [12345%Z]])'
+                else:
+                    ret = '(Some %s)' % C.coq_list(['None' if r is None else '(Some %s)' % C.coq_list(r, C.coq_z) for r in h['returned']])
+                eobs.append('(ObsCheck %s %s %s)' % (ret, C.coq_nat(min(h['p'], 4000)), C.coq_nat(min(h['s'], 4000))))
+            else:
+                evs.append('EvReport')
+                cnt = 'None' if h['counters'] is None else '(Some (%s, %s))' % (C.coq_nat(h['counters'][0]), C.coq_nat(h['counters'][1]))
+                eobs.append('(ObsReport %s %s %s)' % (cnt, C.coq_nat(min(h['p'], 4000)), C.coq_nat(min(h['s'], 4000))))
+        seen_lit = [self._zrow(s['meta'], [2 * v for v in s['samples']]) for s in seen]
+        run_obs = {'returned': 'ObsReturned', 'no_output_set': 'ObsNoOutputSet', 'writer_error': 'ObsWriterError',
+                   'refused': 'ObsRefused'}.get(obs['run'], 'ObsOther')
+        # rows: what the returned reader holds; after an error, what is on disk
+        rows_obs = obs['rows'] if obs['run'] == 'returned' else obs['rows_disk']
+        rep = 'None' if obs['report'] is None else '(Some (%s, %s))' % (C.coq_nat(obs['report'][0]), C.coq_nat(obs['report'][1]))
+        return ('{| sy_input := %s; sy_pattern := %s; sy_old := %s; sy_overwrite := %s; sy_history := %s; sy_obs_history := %s; '
+                'sy_obs_seen := %s; sy_obs_run := %s; sy_obs_processed := %s; sy_obs_synchronized := %s; sy_obs_report := %s; '
+                'sy_obs_warnings := %s; sy_obs_rows := %s; sy_obs_second_refused := %s |}' % (
+                    C.coq_list(inp), C.coq_list(pats), old_lit, ovw, C.coq_list(evs), C.coq_list(eobs), C.coq_list(seen_lit), run_obs,
+                    C.coq_nat(min(obs['processed'], 4000)), C.coq_nat(min(obs['synchronized'], 4000)), rep,
+                    C.coq_nat(min(obs['warnings'], 4000)), self._rows_lit(rows_obs),
+                    C.coq_bool(obs['second'] == 'refused' and obs['second_unchanged'])))
 
     def oracle(self, case, obs):
         if 'raised' in obs:
             return f'Synchronizer raised {obs["raised"]}: {obs["msg"]}'
-        if obs['rows'] is not None:
-            if any(r['data2'] is None for r in obs['rows']):
+        for rows in (obs['rows'], obs['rows_disk'], obs['old_rows']):
+            if rows is not None and any(r['data2'] is None for r in rows):
                 return 'output file holds values that are not the half-integers the function returned'
-            if obs.get('rows_reread') != obs['rows']:
-                return 'the trace set returned by run() differs from the file read again from disk'
+        if obs['rows'] is not None and obs['rows_disk'] != obs['rows']:
+            return 'the trace set returned by run() differs from the file read again from disk'
+        if not all(s['kw_ok'] for s in obs['seen']):
+            return 'the user function did not receive exactly the extra keyword arguments given to Synchronizer'
         return None
 
     def nontrivial(self, case, obs):
@@ -324,20 +527,26 @@ class SyncKind(Kind):
                 'warnings_observed': obs.get('warnings', -1), 'out_kind': case['out_kind'],
                 'data_len': 'shorter' if case['out_len'] < len((case['samples'] or [[0] * 3])[0]) else
                             'equal' if case['out_len'] == len((case['samples'] or [[0] * 3])[0]) else 'longer',
-                'subset': case['select'] is not None}
+                'subset': case['select'] is not None, 'kwargs': case.get('kwargs') is not None}
 
     def tags(self, case, obs):
         return ['synchronizer']
 
     def sample(self, case, obs):
-        c = {k: case[k] for k in ('pattern', 'out_len', 'out_kind', 'dtype', 'out_dtype', 'select')}
-        o = {k: obs.get(k) for k in ('processed', 'synchronized', 'second', 'run', 'warnings')}
+        c = {k: case.get(k) for k in ('pattern', 'out_len', 'out_kind', 'dtype', 'out_dtype', 'select', 'history', 'segments', 'overwrite', 'kwargs')}
+        c['old_rows'] = None if case.get('old') is None else len(case['old']['samples'])
+        o = {k: obs.get(k) for k in ('processed', 'synchronized', 'second', 'run', 'warnings', 'report', 'history')}
         if obs.get('rows'):
             o['rows'] = obs['rows'][:3]
         return {'case': c, 'observed': o}
 
     def shrink(self, case):
-        """Drop one effective input trace (and its script entry)."""
+        """Drop one pre-run event; drop one effective input trace (and its script entry)."""
+        for k in range(len(case.get('history') or [])):
+            c = dict(case)
+            c['history'] = case['history'][:k] + case['history'][k + 1:]
+            c['segments'] = case['segments'][:k] + case['segments'][k + 1:]
+            yield c
         rows_n = len(case['pattern'])
         if rows_n <= 1:
             return
@@ -346,9 +555,108 @@ class SyncKind(Kind):
             c = dict(case)
             c['select'] = sel[:i] + sel[i + 1:]
             c['pattern'] = case['pattern'][:i] + case['pattern'][i + 1:]
-            c['exc'] = case['exc'][:i] + case['exc'][i + 1:]
-            c['offs2'] = case['offs2'][:i] + case['offs2'][i + 1:]
             yield c
 
 
-KINDS = [SyncKind()]
+def _hist_label(case):
+    evs = case.get('history') or []
+    if not evs:
+        return 'none'
+    kinds = set()
+    for ev, seg in zip(evs, case.get('segments') or []):
+        if ev[0] != 'check':
+            kinds.add('report')
+        elif ev[2]:
+            kinds.add('check')
+        else:
+            kinds.add('check-nocatch-raising' if any(ch != 'A' for ch in seg) else 'check-nocatch')
+    return '+'.join(sorted(kinds))
+
+
+class HistoryKind(SyncKind):
+    """Histories of public calls before run(), and output files that already exist."""
+    name = 'synchronizer_history'
+    rule = ('one Synchronizer object driven through: construction over no file / a file left by a previous Synchronizer run with '
+            'fewer or more traces and another trace length (overwrite not given / False / True, str / Path), then 0..4 of '
+            'check(nb_traces, catch_exceptions=True/False) [scripts: all accepted, all rejected, rejected first, rejected after 1..k '
+            'accepted picks, None result] and str() / report(), then run(), str(), run() again; deterministic cross product first, '
+            'then random histories; numpy global RNG seeded per case and restored; non-trivial = a history or an existing file, and '
+            'at least one accepted trace in the run')
+
+    def gen(self, rng, tier):
+        # --- boundary block 1: output file absent / shorter / longer than the accepted set x overwrite x str/Path x run patterns
+        for old in (None, (2, 3), (9, 2)):
+            for overwrite in (None, False, True):
+                if old is None and overwrite is None:
+                    continue           # the plain kind
+                for out_kind in ('str', 'path'):
+                    for pat in ('AAAA', 'RANAAR', 'A', 'RRN', ''):
+                        yield make_case(rng, len(pat), pat, out_kind=out_kind, old=old, overwrite=overwrite)
+        # --- boundary block 2: histories over a new file
+        hists = [
+            [('check', 'ARN', True)], [('check', 'AAA', True)], [('check', 'RNR', True)], [('check', 'A', True)],
+            [('check', 'AAAA', False)], [('check', 'RAA', False)], [('check', 'NAA', False)], [('check', 'ARA', False)],
+            [('check', 'AAN', False)], [('check', 'AAAAAR', False)], [('check', 'AAAAAAAAAAAA', False)],
+            [('str',)], [('report',)],
+            [('str',), ('check', 'AR', True), ('report',), ('check', 'AAN', False), ('check', 'A', True)],
+            [('check', 'AR', False), ('check', 'AAR', False), ('check', 'AN', False)],
+            [('check', 'RRRRRRRRR', True), ('check', 'NNNNNNNNN', True)],
+        ]
+        for pi, pat in enumerate(('ARANA', 'NRRAA', 'AAA', 'RN', 'RRRRRRRRRA')):
+            for hi, h in enumerate(hists):
+                kwargs = {'off2': 2 * ((pi + hi) % 5 - 2), 'tag': 'k%d' % hi} if (pi + hi) % 3 == 0 else None
+                yield make_case(rng, len(pat), pat, history=h, kwargs=kwargs)
+        # the empty input set: check() cannot pick
+        yield make_case(rng, 0, '', history=[('check', 'AA', True), ('str',)])
+        yield make_case(rng, 0, '', history=[('check', 'A', False)], old=(3, 2))
+        # --- boundary block 3: histories AND an existing file
+        for old in ((1, 4), (6, 3)):
+            for overwrite in (False, True):
+                for h in ([('check', 'AAR', False)], [('check', 'ANA', True), ('report',)], [('check', 'N', False), ('check', 'AA', False)]):
+                    for pat in ('RAANA', 'NR'):
+                        yield make_case(rng, len(pat), pat, history=h, old=old, overwrite=overwrite)
+        # --- random structure
+        nrand = 70 if tier == 'quick' else 1200
+        for _ in range(nrand):
+            full = rng.randint(1, 14)
+            select = None
+            n = full
+            if rng.random() < 0.2:
+                select = [rng.randrange(full) for _ in range(rng.randint(1, 10))]
+                n = len(select)
+            pat = [rng.choice(rng.choice(['AAAAANR', 'ANR', 'AR', 'NR'])) for _ in range(n)]
+            h = []
+            for _e in range(rng.choice([0, 1, 1, 2, 2, 3, 4])):
+                r = rng.random()
+                if r < 0.75:
+                    nb = rng.choice([1, 2, 3, 5, 8, n + 3])
+                    w = rng.choice(['AAAAR', 'AAAN', 'ANR', 'A', 'RN'])
+                    h.append(('check', ''.join(rng.choice(w) for _i in range(nb)), rng.random() < 0.4))
+                else:
+                    h.append((rng.choice(['str', 'report']),))
+            old = (rng.randint(1, 10), rng.randint(1, 5)) if rng.random() < 0.35 else None
+            overwrite = rng.choice([None, False, True]) if old is not None else rng.choice([None, None, False, True])
+            kwargs = {'off2': 2 * rng.randint(-4, 4), 'tag': rng.choice(['a', 'sync', ''])} if rng.random() < 0.3 else None
+            yield make_case(rng, n, pat, select=select, full=full, history=h, old=old, overwrite=overwrite, kwargs=kwargs)
+
+    def nontrivial(self, case, obs):
+        return bool(case.get('history') or case.get('old')) and 'A' in case['pattern']
+
+    def features(self, case, obs):
+        f = SyncKind.features(self, case, obs)
+        f = {k: f[k] for k in ('accepted', 'out_kind', 'kwargs')}
+        f.update({'history': _hist_label(case), 'events': len(case.get('history') or []),
+                  'file': 'none' if case.get('old') is None else 'exists',
+                  'overwrite': str(case.get('overwrite')), 'run': obs.get('run', 'raised')})
+        return f
+
+    def tags(self, case, obs):
+        t = ['synchronizer']
+        if case.get('history'):
+            t.append('pre-run-history')
+        if case.get('old') is not None:
+            t.append('existing-output-file')
+        return t
+
+
+KINDS = [SyncKind(), HistoryKind()]
